@@ -6,6 +6,14 @@ Oracle: every location is the *set of positions* it covers.  Slicing keeps
 that side; the other flags are preserved; features without surviving location
 disappear.  Feature indexing is a concatenation of per-location subsequences in
 biological order, written out here with plain Python strings.
+
+Revised after the audit (notes/audit/C13.md, decisions in notes/audit/C13_applied.md):
+inputs the property does not quantify over (reversed slices, a slice start one
+past the last base, BETWEEN/UNK_LOC in an index feature, overlapping locations in
+the "biological order" comparison) are not generated / not judged, and where the
+documentation leaves the outcome open (mixed-strand index feature, reverse-strand
+feature assignment, NumPy slice bounds rejected with a TypeError) every
+legitimate outcome is accepted, labelled, and still checked against the model.
 """
 
 from hypothesis import strategies as st
@@ -20,7 +28,10 @@ RULE = (
 )
 
 DEFECT_NAMES = ["MISS_LEFT", "MISS_RIGHT", "BEYOND_LEFT", "BEYOND_RIGHT", "UNK_LOC", "BETWEEN"]
+# defects that do not change which bases a location covers (audit A7)
+SIDE_DEFECT_NAMES = ["MISS_LEFT", "MISS_RIGHT", "BEYOND_LEFT", "BEYOND_RIGHT"]
 COMPL = {"A": "T", "C": "G", "G": "C", "T": "A"}
+SEQTYPES = ["nuc", "nuc", "nuc", "protein", "general"]
 
 
 # --------------------------------------------------------------------------
@@ -52,6 +63,21 @@ def _mk_annotation(features):
     from biotite.sequence import Annotation
 
     return Annotation([_mk_feature(f) for f in features])
+
+
+def _mk_sequence(text, seqtype="nuc"):
+    """The letters A, C, G, T are symbols of all three alphabets."""
+    from biotite.sequence import Alphabet, GeneralSequence, NucleotideSequence, ProteinSequence
+
+    if seqtype == "protein":
+        return ProteinSequence(text)
+    if seqtype == "general":
+        return GeneralSequence(Alphabet(["A", "C", "G", "T"]), text)
+    return NucleotideSequence(text)
+
+
+def _seq_str(sequence):
+    return "".join(str(s) for s in sequence.symbols)
 
 
 def _loc_tuple(loc):
@@ -108,15 +134,24 @@ def model_slice(features, lo, hi):
     return frozenset(out), cut
 
 
+def model_annotation_set(features):
+    return model_slice(features, None, None)[0]
+
+
 def revcomp_str(s):
     return "".join(COMPL[c] for c in reversed(s))
+
+
+def _pairwise_disjoint(locs):
+    s = sorted(locs, key=lambda l: l["first"])
+    return all(s[i]["last"] < s[i + 1]["first"] for i in range(len(s) - 1))
 
 
 # --------------------------------------------------------------------------
 # strategies
 # --------------------------------------------------------------------------
-def st_defect():
-    return st.lists(st.sampled_from(DEFECT_NAMES), max_size=3, unique=True).map(sorted)
+def st_defect(names=DEFECT_NAMES):
+    return st.lists(st.sampled_from(names), max_size=3, unique=True).map(sorted)
 
 
 def st_loc(lo, hi, strand=None):
@@ -150,6 +185,26 @@ def st_feature(lo, hi, max_locs=4, same_strand=False):
     return build(None)
 
 
+@st.composite
+def st_disjoint_locs(draw, lo, hi, k, strand, defect_names=DEFECT_NAMES):
+    """<= k pairwise disjoint locations inside [lo, hi], one strand, ascending.
+
+    Built from 2k distinct sorted cut points; sampling without replacement from the
+    range, so no rejection even when the range has exactly 2k positions (audit C2)."""
+    n = hi - lo + 1
+    k = max(1, min(k, n // 2))
+    if n >= 2 * k:
+        pts = sorted(
+            draw(st.lists(st.sampled_from(range(lo, hi + 1)), min_size=2 * k, max_size=2 * k, unique=True))
+        )
+    else:
+        pts = [lo, lo]
+    return [
+        {"first": pts[2 * i], "last": pts[2 * i + 1], "strand": strand, "defect": draw(st_defect(defect_names))}
+        for i in range(len(pts) // 2)
+    ]
+
+
 def st_annotation_slice(tier):
     big = 40 if tier == "quick" else 120
 
@@ -157,12 +212,18 @@ def st_annotation_slice(tier):
     def gen(draw):
         lo = draw(st.integers(-big, big))
         span = draw(st.integers(1, big))
-        feats = draw(st.lists(st_feature(lo - 5, lo + span + 5), max_size=5))
+        max_locs = draw(st.sampled_from([4, 4, 4, 12]))
+        min_feats = draw(st.sampled_from([0, 1, 1, 1, 1, 1, 1, 1]))
+        feats = draw(st.lists(st_feature(lo - 5, lo + span + 5, max_locs=max_locs), min_size=min_feats, max_size=5))
         a = draw(st.one_of(st.integers(lo - 8, lo + span + 8), st.none(), st.integers(lo - 8, lo + span + 8)))
         b = draw(st.one_of(st.integers(lo - 8, lo + span + 8), st.none(), st.integers(lo - 8, lo + span + 8)))
-        if a is not None and b is not None and a > b and draw(st.integers(0, 7)) != 0:
+        # reversed slices (a > b) are not "slices within the sequence": never generated (audit A5)
+        if a is not None and b is not None and a > b:
             a, b = b, a
-        if a is not None and a == b and draw(st.integers(0, 3)) != 0:
+        # empty slices [a:a] as a class of their own (~6 %), not as an accident of the draws
+        if a is not None and b is not None and draw(st.integers(0, 7)) == 7:
+            b = a
+        elif a is not None and a == b:
             b = a + draw(st.integers(1, span))
         return {
             "features": feats, "start": a, "stop": b, "step": draw(st.sampled_from([None, 1, 2, -1])),
@@ -177,7 +238,7 @@ def st_seq(min_size=1, max_size=40):
     return st.text("ACGT", min_size=min_size, max_size=max_size)
 
 
-def st_annotseq(tier, same_strand=False, inside=False, max_feats=4, minlen=1):
+def st_annotseq(tier, same_strand=False, inside=False, max_feats=4, minlen=1, min_feats=0):
     maxlen = 40 if tier == "quick" else 100
 
     @st.composite
@@ -187,12 +248,12 @@ def st_annotseq(tier, same_strand=False, inside=False, max_feats=4, minlen=1):
         n = len(seq)
         lo, hi = start, start + n - 1
         if inside:
-            feats = draw(st.lists(st_feature(lo, hi, same_strand=same_strand), max_size=max_feats))
+            feats = draw(st.lists(st_feature(lo, hi, same_strand=same_strand), min_size=min_feats, max_size=max_feats))
         else:
             # mostly inside, sometimes reaching outside the sequence (also negative)
             wide = draw(st.booleans())
             flo, fhi = (lo - 6, hi + 6) if wide else (lo, hi)
-            feats = draw(st.lists(st_feature(flo, fhi, same_strand=same_strand), max_size=max_feats))
+            feats = draw(st.lists(st_feature(flo, fhi, same_strand=same_strand), min_size=min_feats, max_size=max_feats))
         return {"seq": seq, "seqstart": start, "features": feats}
 
     return gen()
@@ -201,19 +262,24 @@ def st_annotseq(tier, same_strand=False, inside=False, max_feats=4, minlen=1):
 def st_annotseq_slice(tier):
     @st.composite
     def gen(draw):
-        base = draw(st_annotseq(tier))
+        base = draw(st_annotseq(tier, min_feats=draw(st.sampled_from([0, 1, 1, 1, 1, 1, 1, 1]))))
         lo = base["seqstart"]
         hi_excl = lo + len(base["seq"])
-        a = draw(st.one_of(st.integers(lo, hi_excl), st.none(), st.integers(lo, hi_excl)))
+        # "the index must be in range of the sequence": start on an existing base, stop at most one
+        # past the last base (audit A6)
+        a = draw(st.one_of(st.integers(lo, hi_excl - 1), st.none(), st.integers(lo, hi_excl - 1)))
         b = draw(st.one_of(st.integers(lo, hi_excl), st.none(), st.integers(lo, hi_excl)))
         if a is not None and b is not None and a > b:
             a, b = b, a
-        if a is not None and a == b and draw(st.integers(0, 3)) != 0:
+        if a is not None and b is not None and draw(st.integers(0, 7)) == 7:
+            b = a
+        elif a is not None and a == b:
             a = draw(st.integers(lo, a))
-            b = draw(st.integers(b, hi_excl))
+            b = draw(st.integers(b + 1, hi_excl))
         base["start"] = a
         base["stop"] = b
         base["np_bounds"] = draw(st.sampled_from([False, False, True]))
+        base["seqtype"] = draw(st.sampled_from(SEQTYPES))
         return base
 
     return gen()
@@ -225,26 +291,18 @@ def st_feature_index(tier):
         base = draw(st_annotseq(tier, inside=True, max_feats=2, minlen=draw(st.sampled_from([1, 2, 8, 8, 30]))))
         lo = base["seqstart"]
         hi = lo + len(base["seq"]) - 1
-        # the feature used as index: disjoint locations built from sorted cut points
+        seqtype = draw(st.sampled_from(SEQTYPES))
+        base["seqtype"] = seqtype
+        # the feature used as index: disjoint locations built from sorted cut points;
+        # only side defects: what BETWEEN / UNK_LOC mean for the covered bases is open (audit A7)
         k = draw(st.sampled_from([1, 2, 2, 3, 3, 4, 9, 12]))
-        k = max(1, min(k, (hi - lo + 1) // 2))
-        if hi - lo + 1 >= 2 * k:
-            pts = sorted(draw(st.lists(st.integers(lo, hi), min_size=2 * k, max_size=2 * k, unique=True)))
-        else:
-            pts = [lo, lo]
-        mixed = draw(st.integers(0, 9)) == 0
-        strand = draw(st.sampled_from("+-"))
-        locs = []
-        prev_last = None
-        for i in range(k):
-            first, last = pts[2 * i], pts[2 * i + 1]
-            if prev_last is not None and first <= prev_last:
-                continue  # keep locations disjoint
-            prev_last = last
-            s = strand
-            if mixed and i % 2 == 1:
-                s = "+" if strand == "-" else "-"
-            locs.append({"first": first, "last": last, "strand": s, "defect": draw(st_defect())})
+        # reverse strand only for nucleotides ("always FORWARD for peptide features")
+        strand = draw(st.sampled_from("+-")) if seqtype == "nuc" else "+"
+        locs = draw(st_disjoint_locs(lo, hi, k, strand, SIDE_DEFECT_NAMES))
+        mixed = seqtype == "nuc" and draw(st.integers(0, 9)) == 9
+        if mixed:
+            for i in range(1, len(locs), 2):
+                locs[i]["strand"] = "+" if strand == "-" else "-"
         order = draw(st.permutations(list(range(len(locs)))))
         locs = [locs[i] for i in order]
         total = sum(l["last"] - l["first"] + 1 for l in locs)
@@ -255,8 +313,15 @@ def st_feature_index(tier):
         a = draw(st.integers(lo, hi + 1))
         b = draw(st.integers(lo, hi + 1))
         a, b = min(a, b), max(a, b)
+        # omitted bounds in slice assignment (audit B3)
+        open_kind = draw(st.sampled_from(["", "", "a", "b", "ab"]))
+        if "a" in open_kind:
+            a = None
+        if "b" in open_kind:
+            b = None
+        size = (hi + 1 if b is None else b) - (lo if a is None else a)
         base["sl"] = [a, b]
-        base["sl_new"] = draw(st.text("ACGT", min_size=b - a, max_size=b - a))
+        base["sl_new"] = draw(st.text("ACGT", min_size=size, max_size=size))
         return base
 
     return gen()
@@ -265,9 +330,29 @@ def st_feature_index(tier):
 def st_revcomp(tier):
     @st.composite
     def gen(draw):
-        base = draw(st_annotseq(tier, same_strand=True, inside=True))
-        base["rc_start"] = draw(st.integers(1, 500))
+        # any features of the quantifier: both strands inside one feature, locations reaching
+        # outside the sequence, negative positions (audit B1) ...
+        base = draw(st_annotseq(tier, max_feats=3))
+        lo = base["seqstart"]
+        hi = lo + len(base["seq"]) - 1
+        # ... plus "clean" features (inside, one strand, pairwise disjoint locations) for which the
+        # biological sequence is defined (audit A3)
+        for _ in range(draw(st.sampled_from([0, 1, 1, 2]))):
+            k = draw(st.sampled_from([1, 2, 2, 3, 4]))
+            locs = draw(st_disjoint_locs(lo, hi, k, draw(st.sampled_from("+-"))))
+            order = draw(st.permutations(list(range(len(locs)))))
+            base["features"].append(
+                {
+                    "key": draw(st.sampled_from(["CDS", "gene", "misc_feature"])),
+                    "locs": [locs[i] for i in order],
+                    "qual": draw(st_qual()),
+                }
+            )
+        base["rc_start"] = draw(st.one_of(st.just(1), st.integers(1, 500)))
+        # call reverse_complement() without argument where the documented default 1 is wanted (audit B2)
+        base["rc_default"] = draw(st.booleans())
         base["mut_pos"] = draw(st.integers(0, len(base["seq"]) - 1))
+        base["mut_op"] = draw(st.integers(0, 2))
         return base
 
     return gen()
@@ -276,78 +361,120 @@ def st_revcomp(tier):
 # --------------------------------------------------------------------------
 # run functions
 # --------------------------------------------------------------------------
-def _bound(case, v):
+def _slice_obj(o, case, obj, a, b, *step):
+    """obj[a:b(:step)], with NumPy integer bounds if the case says so.
+
+    NumPy integers follow the Python slice convention (__index__) but are not a documented
+    bound type: if they are rejected with a TypeError this is labelled and the same slice is
+    judged with built-in ints (audit A8); a wrong *value* for NumPy bounds stays a violation."""
+    if not case.get("np_bounds"):
+        return obj[slice(a, b, *step)]
     import numpy as np
 
-    if v is None or not case.get("np_bounds"):
-        return v
-    return np.int64(v)
+    o.label("numpy_int_bounds")
+    na = None if a is None else np.int64(a)
+    nb = None if b is None else np.int64(b)
+    try:
+        return obj[slice(na, nb, *step)]
+    except TypeError:
+        o.label("numpy_int_bounds_rejected_TypeError")
+        return obj[slice(a, b, *step)]
 
 
 def run_annotation_slice(case):
     o = Outcome()
-    if case.get("np_bounds"):
-        o.label("numpy_int_bounds")
-    annot = _mk_annotation(case["features"])
     a, b = case["start"], case["stop"]
+    if a is not None and b is not None and a > b:
+        # reversed slice: outside "all slices [a:b] within the sequence", undocumented (audit A5)
+        o.invalid = True
+        return o
+    annot = _mk_annotation(case["features"])
     if a is not None and b is not None and a >= b:
         o.label("empty_slice")
     lo = a
     hi = None if b is None else b - 1
     want, cut = model_slice(case["features"], lo, hi)
-    got = _annotation_set(annot[slice(_bound(case, a), _bound(case, b), case["step"])])
+    got = _annotation_set(_slice_obj(o, case, annot, a, b, case["step"]))
     o.check(got == want, "slice_keeps_exactly_inside_bases", lambda: f"got {sorted(map(str, got))} want {sorted(map(str, want))}")
     # the original annotation must not change
     o.check(
-        _annotation_set(annot) == _annotation_set(_mk_annotation(case["features"])),
+        _annotation_set(annot) == model_annotation_set(case["features"]),
         "slice_does_not_mutate",
         "annotation changed by slicing",
     )
     o.label("open_start" if a is None else "closed_start", "open_stop" if b is None else "closed_stop")
     if cut:
         o.label("cuts_location")
+    if any(len(f["locs"]) >= 5 for f in case["features"]):
+        o.label("feature_nlocs>=5")
+    if not case["features"]:
+        o.label("no_features")
     o.mark_nontrivial(cut > 0 and len(case["features"]) >= 1)
     return o
 
 
 def _mk_annotseq(case):
-    from biotite.sequence import AnnotatedSequence, NucleotideSequence
+    from biotite.sequence import AnnotatedSequence
 
     return AnnotatedSequence(
-        _mk_annotation(case["features"]), NucleotideSequence(case["seq"]), case["seqstart"]
+        _mk_annotation(case["features"]), _mk_sequence(case["seq"], case.get("seqtype", "nuc")), case["seqstart"]
     )
 
 
 def run_annotseq_slice(case):
     o = Outcome()
-    aseq = _mk_annotseq(case)
     s0 = case["seqstart"]
     n = len(case["seq"])
     a, b = case["start"], case["stop"]
+    if (a is not None and b is not None and a > b) or (a is not None and a >= s0 + n):
+        # not a slice within the sequence (reversed, or start behind the last base; audit A6)
+        o.invalid = True
+        return o
+    aseq = _mk_annotseq(case)
     if a is not None and b is not None and a >= b:
         o.label("empty_slice")
-    sub = aseq[_bound(case, a) : _bound(case, b)]
-    if case.get("np_bounds"):
-        o.label("numpy_int_bounds")
+    sub = _slice_obj(o, case, aseq, a, b)
     ia = 0 if a is None else a - s0
     ib = n if b is None else b - s0
-    o.check_eq(str(sub.sequence), case["seq"][ia:ib], "slice_subsequence", "sub-sequence")
+    o.check_eq(_seq_str(sub.sequence), case["seq"][ia:ib], "slice_subsequence", "sub-sequence")
     o.check_eq(sub.sequence_start, s0 if a is None else a, "slice_sequence_start", "sequence_start")
     lo = a
     hi = None if b is None else b - 1
     got = _annotation_set(sub.annotation)
+    # An omitted bound is unbounded: the sub-annotation is "the corresponding subannotation", i.e.
+    # annotation[a:b] for the same slice, and the Annotation documentation fixes that an omitted
+    # start/stop includes "all features from the start or up to the stop".  Locations reaching
+    # outside the sequence (the quantifier has negative positions with sequence start >= 1) are
+    # therefore neither clipped nor flagged on the side of an omitted bound.  The other reading
+    # (omitted bound = end of the sequence) differs exactly for these locations; it is computed
+    # only to label the deciding class and to name the deviation in the report (audit A1).
     want_unbounded, cut = model_slice(case["features"], lo, hi)
-    # An omitted bound is unbounded, as documented for Annotation ("the subannotation will include
-    # all features from the start or up to the stop, respectively"): locations that reach beyond the
-    # sequence stay as they are.
-    ok = got == want_unbounded
+    want_clipped, _ = model_slice(case["features"], s0 if a is None else a, s0 + n - 1 if b is None else b - 1)
+    if want_clipped != want_unbounded:
+        o.label("omitted_bound_and_location_outside_sequence")
+    if got != want_unbounded and got == want_clipped:
+        o.fail(
+            "annotseq_omitted_bound_is_unbounded",
+            f"[{a}:{b}] start={s0} len={n}: locations outside the sequence were clipped at the omitted bound: "
+            f"got {sorted(map(str, got))} want {sorted(map(str, want_unbounded))}",
+        )
+    else:
+        o.check(
+            got == want_unbounded,
+            "annotseq_slice_keeps_exactly_inside_bases",
+            lambda: f"[{a}:{b}] start={s0} len={n}: got {sorted(map(str, got))} want {sorted(map(str, want_unbounded))}",
+        )
+    o.check_eq(_seq_str(aseq.sequence), case["seq"], "slice_does_not_mutate", "original sequence after slicing")
     o.check(
-        ok,
-        "annotseq_slice_keeps_exactly_inside_bases",
-        lambda: f"[{a}:{b}] start={s0} len={n}: got {sorted(map(str, got))} want {sorted(map(str, want_unbounded))}",
+        _annotation_set(aseq.annotation) == model_annotation_set(case["features"]),
+        "slice_does_not_mutate",
+        "original annotation after slicing",
     )
     o.label("open_start" if a is None else "closed_start", "open_stop" if b is None else "closed_stop")
     o.label("start1" if s0 == 1 else "start_other")
+    o.label("seqtype=" + case.get("seqtype", "nuc"))
+    if any(l["first"] < s0 or l["last"] > s0 + n - 1 for f in case["features"] for l in f["locs"]):
+        o.label("location_outside_sequence")
     if cut:
         o.label("cuts_location")
     o.mark_nontrivial(cut > 0 and (s0 != 1 or a is None or b is None))
@@ -355,15 +482,16 @@ def run_annotseq_slice(case):
 
 
 def run_feature_index(case):
-    from biotite.sequence import NucleotideSequence
-
     o = Outcome()
     s0 = case["seqstart"]
     seq = case["seq"]
+    n = len(seq)
+    seqtype = case.get("seqtype", "nuc")
     idx = case["index"]
     feat = _mk_feature(idx)
     strands = {l["strand"] for l in idx["locs"]}
     aseq = _mk_annotseq(case)
+    o.label("seqtype=" + seqtype)
 
     # integer get / set
     p = case["int_pos"]
@@ -371,22 +499,36 @@ def run_feature_index(case):
     aseq2 = _mk_annotseq(case)
     aseq2[p] = case["int_sym"]
     want = seq[: p - s0] + case["int_sym"] + seq[p - s0 + 1 :]
-    o.check_eq(str(aseq2.sequence), want, "int_assign", f"aseq[{p}] = {case['int_sym']}")
-    # slice set
+    o.check_eq(_seq_str(aseq2.sequence), want, "int_assign", f"aseq[{p}] = {case['int_sym']}")
+    # slice set, with or without both bounds
     a, b = case["sl"]
-    if b > a:
+    ia = 0 if a is None else a - s0
+    ib = n if b is None else b - s0
+    if ib > ia:
         aseq3 = _mk_annotseq(case)
-        aseq3[a:b] = NucleotideSequence(case["sl_new"])
-        want = seq[: a - s0] + case["sl_new"] + seq[b - s0 :]
-        o.check_eq(str(aseq3.sequence), want, "slice_assign", f"aseq[{a}:{b}] = ...")
+        aseq3[a:b] = _mk_sequence(case["sl_new"], seqtype)
+        want = seq[:ia] + case["sl_new"] + seq[ib:]
+        o.check_eq(_seq_str(aseq3.sequence), want, "slice_assign", f"aseq[{a}:{b}] = ...")
+        o.label("slice_assign_" + ("open" if a is None or b is None else "closed"))
 
+    locs = idx["locs"]
+    total = sum(l["last"] - l["first"] + 1 for l in locs)
     if len(strands) > 1:
+        # Neither the property nor the documentation says what a feature with locations on both
+        # strands yields (GenBank allows it: trans-splicing).  Accepted: any exception, or a sequence
+        # with one symbol per covered base; in both cases the object must stay as it was (audit A4).
         o.label("mixed_strands")
-        o.expect_raises(ValueError, lambda: aseq[feat], "mixed_strand_feature_rejected", "aseq[feature]")
+        try:
+            r = aseq[feat]
+        except Exception as e:
+            o.label("mixed_strands_raises_" + type(e).__name__)
+        else:
+            o.label("mixed_strands_returns_sequence")
+            o.check_eq(len(r), total, "mixed_strand_feature_length", "len(aseq[feature])")
+        o.check_eq(_seq_str(aseq.sequence), seq, "feature_get_does_not_mutate", "sequence after get (mixed strands)")
         return o
     strand = strands.pop()
-    o.label("strand" + strand, f"nlocs={len(idx['locs'])}" if len(idx["locs"]) < 5 else "nlocs>=5")
-    locs = idx["locs"]
+    o.label("strand" + strand, f"nlocs={len(locs)}" if len(locs) < 5 else "nlocs>=5")
     if strand == "+":
         pieces = [seq[l["first"] - s0 : l["last"] - s0 + 1] for l in sorted(locs, key=lambda l: l["first"])]
     else:
@@ -395,14 +537,18 @@ def run_feature_index(case):
             for l in sorted(locs, key=lambda l: -l["last"])
         ]
     want = "".join(pieces)
-    o.check_eq(str(aseq[feat]), want, "feature_get_biological_order", "aseq[feature]")
-    o.check_eq(str(aseq.sequence), seq, "feature_get_does_not_mutate", "sequence after get")
+    if any(d in ("BETWEEN", "UNK_LOC") for l in locs for d in l["defect"]):
+        # only in stored cases of earlier versions: which bases such a location covers is open (audit A7)
+        o.label("index_feature_with_BETWEEN_or_UNK_LOC_not_judged")
+        return o
+    o.check_eq(_seq_str(aseq[feat]), want, "feature_get_biological_order", "aseq[feature]")
+    o.check_eq(_seq_str(aseq.sequence), seq, "feature_get_does_not_mutate", "sequence after get")
 
     # assignment: positions outside the feature unchanged, covered positions are written
     aseq4 = _mk_annotseq(case)
     new = case["new"]
-    aseq4[feat] = NucleotideSequence(new)
-    after = str(aseq4.sequence)
+    aseq4[feat] = _mk_sequence(new, seqtype)
+    after = _seq_str(aseq4.sequence)
     covered = set()
     for l in locs:
         covered.update(range(l["first"] - s0, l["last"] - s0 + 1))
@@ -414,25 +560,48 @@ def run_feature_index(case):
     o.check_eq(len(after), len(seq), "feature_assign_outside_unchanged", "length")
     if strand == "+":
         # the assigned bases are those the same index reads back
-        o.check_eq(str(aseq4[feat]), new, "feature_assign_then_get", f"locs={locs} seq={seq}")
+        o.check_eq(_seq_str(aseq4[feat]), new, "feature_assign_then_get", f"locs={locs} seq={seq}")
     else:
-        # reverse strand: the property only states that "those bases" are written;
-        # the written multiset per feature must be the new sequence's symbols.
+        # Reverse strand: "the new sequence is replacing the locations of the Feature" / "writes
+        # those bases" leaves two readings: the given symbols are written as they are (today), or
+        # assignment is the inverse of the getter (the reverse complement is written, so that the
+        # same index reads the new sequence back).  Both are accepted (audit A2).
         written = sorted(after[i] for i in covered)
-        o.check_eq(written, sorted(new), "feature_assign_writes_given_bases", "reverse strand")
+        if written == sorted(new):
+            o.label("reverse_assign_writes_given_symbols")
+        elif _seq_str(aseq4[feat]) == new:
+            o.label("reverse_assign_inverse_of_get")
+        else:
+            o.fail(
+                "feature_assign_writes_given_bases",
+                f"reverse strand: {seq} -> {after}, assigned {new}: neither the given symbols were written "
+                f"nor does the same index read them back (reads {_seq_str(aseq4[feat])})",
+            )
     o.mark_nontrivial(len(locs) >= 2)
     return o
 
 
+def _revcomp(obj, start, use_default):
+    if start == 1 and use_default:
+        return obj.reverse_complement()
+    return obj.reverse_complement(sequence_start=start)
+
+
 def run_revcomp_copy(case):
+    from biotite.sequence import Annotation, Feature, Location, Sequence
+
     o = Outcome()
     aseq = _mk_annotseq(case)
     s0 = case["seqstart"]
     seq = case["seq"]
-    rc = aseq.reverse_complement(sequence_start=case["rc_start"])
+    rc_start = case["rc_start"]
+    use_default = case.get("rc_default", True)
+    if use_default and (rc_start == 1 or s0 == 1):
+        o.label("reverse_complement_default_argument")
+    rc = _revcomp(aseq, rc_start, use_default)
     o.check_eq(str(rc.sequence), revcomp_str(seq), "revcomp_sequence", "sequence")
-    o.check_eq(rc.sequence_start, case["rc_start"], "revcomp_sequence_start", "start")
-    back = rc.reverse_complement(sequence_start=s0)
+    o.check_eq(rc.sequence_start, rc_start, "revcomp_sequence_start", "start")
+    back = _revcomp(rc, s0, use_default)
     o.check(back == aseq, "revcomp_twice_is_identity", lambda: f"{back!r} != {aseq!r}")
     o.check_eq(
         _annotation_set(back.annotation),
@@ -440,16 +609,24 @@ def run_revcomp_copy(case):
         "revcomp_twice_is_identity",
         "annotation",
     )
+    o.check_eq(str(aseq.sequence), seq, "revcomp_does_not_mutate", "original sequence")
+    o.check(
+        _annotation_set(aseq.annotation) == model_annotation_set(case["features"]),
+        "revcomp_does_not_mutate",
+        "original annotation",
+    )
     # metamorphic: the biological sequence of a feature does not depend on the strand we look at
     n = len(seq)
+    sw = {"MISS_LEFT": "MISS_RIGHT", "MISS_RIGHT": "MISS_LEFT", "BEYOND_LEFT": "BEYOND_RIGHT", "BEYOND_RIGHT": "BEYOND_LEFT"}
+    rc_set = _annotation_set(rc.annotation)
+    seen = set()  # labels: once per case
     for f in case["features"]:
         feat = _mk_feature(f)
         # mirrored feature built from the model
         m_locs = []
         for l in f["locs"]:
-            first = (n - 1) - (l["last"] - s0) + case["rc_start"]
-            last = (n - 1) - (l["first"] - s0) + case["rc_start"]
-            sw = {"MISS_LEFT": "MISS_RIGHT", "MISS_RIGHT": "MISS_LEFT", "BEYOND_LEFT": "BEYOND_RIGHT", "BEYOND_RIGHT": "BEYOND_LEFT"}
+            first = (n - 1) - (l["last"] - s0) + rc_start
+            last = (n - 1) - (l["first"] - s0) + rc_start
             m_locs.append(
                 {
                     "first": first,
@@ -460,35 +637,104 @@ def run_revcomp_copy(case):
             )
         m_feat = _mk_feature({"key": f["key"], "locs": m_locs, "qual": f["qual"]})
         o.check(
-            _feature_tuple(m_feat) in _annotation_set(rc.annotation),
+            _feature_tuple(m_feat) in rc_set,
             "revcomp_maps_locations",
             lambda: f"{m_feat!r} missing in {rc.annotation!r}",
         )
-        firsts = [l["first"] for l in f["locs"]]
-        lasts = [l["last"] for l in f["locs"]]
-        if len(set(firsts)) == len(firsts) and len(set(lasts)) == len(lasts):
+        one_strand = len({l["strand"] for l in f["locs"]}) == 1
+        inside = all(s0 <= l["first"] and l["last"] <= s0 + n - 1 for l in f["locs"])
+        if not one_strand:
+            seen.add("feature_with_both_strands")
+        if not inside:
+            seen.add("location_outside_sequence")
+        seen.add("feature_nlocs=%d" % len(f["locs"]) if len(f["locs"]) < 3 else "feature_nlocs>=3")
+        seen.update("defect_" + d for l in f["locs"] for d in l["defect"])
+        # "biological order" is defined for pairwise disjoint locations on one strand (audit A3)
+        if one_strand and inside and _pairwise_disjoint(f["locs"]):
+            seen.add("feature_sequence_compared" + ("_multi_location" if len(f["locs"]) >= 2 else ""))
             o.check_eq(str(rc[m_feat]), str(aseq[feat]), "revcomp_preserves_feature_sequence", f"feature {f}")
+    o.label(*sorted(seen))
     # copy
     cp = aseq.copy()
     o.check(cp == aseq, "copy_equal", "copy() != original")
-    from biotite.sequence import Sequence
-
     if not o.check(isinstance(cp.sequence, Sequence), "copy_equal", f"copy().sequence is a {type(cp.sequence).__name__}"):
         return o
     o.check_eq(str(cp.sequence), seq, "copy_equal", "copied sequence")
-    cp.sequence[case["mut_pos"]] = "A" if seq[case["mut_pos"]] != "A" else "C"
+    o.check_eq(cp.sequence_start, s0, "copy_equal", "sequence_start of the copy")
+    o.check_eq(_annotation_set(cp.annotation), model_annotation_set(case["features"]), "copy_equal", "annotation of the copy")
+    other = "A" if seq[case["mut_pos"]] != "A" else "C"
+    cp.sequence[case["mut_pos"]] = other
     o.check_eq(str(aseq.sequence), seq, "copy_independent", "original sequence after mutating the copy")
-    from biotite.sequence import Feature, Location
 
+    probe = Feature("verif_probe", [Location(1, 1)])
+    model_set = model_annotation_set(case["features"])
     cp2 = aseq.copy()
-    cp2.annotation.add_feature(Feature("verif_probe", [Location(1, 1)]))
-    o.check(
-        _annotation_set(aseq.annotation) == _annotation_set(_mk_annotation(case["features"])),
+    cp2.annotation.add_feature(probe)
+    # (once sharing is seen the objects are in an undefined state: stop there)
+    if not o.check(
+        _annotation_set(aseq.annotation) == model_set,
         "copy_independent",
         "original annotation after adding a feature to the copy",
-    )
+    ):
+        return o
+    # Annotation.copy() itself: equal, and independent when the copy is edited
     acopy = aseq.annotation.copy()
     o.check(acopy == aseq.annotation, "copy_equal", "annotation copy")
+    acopy.add_feature(probe)
+    if not o.check(
+        _annotation_set(aseq.annotation) == model_set,
+        "copy_independent",
+        "original annotation after adding a feature to its Annotation.copy()",
+    ):
+        return o
+    if case["features"]:
+        acopy.del_feature(_mk_feature(case["features"][0]))
+        if not o.check(
+            _annotation_set(aseq.annotation) == model_set,
+            "copy_independent",
+            "original annotation after deleting a feature from its Annotation.copy()",
+        ):
+            return o
+    # ... and the other direction: the original is edited, the copies are inspected
+    cp3 = aseq.copy()
+    acopy2 = aseq.annotation.copy()
+    orig = aseq.annotation
+    op = case.get("mut_op", 0)
+    if op == 1 and case["features"]:
+        o.label("original_edited_by_del_feature")
+        orig.del_feature(_mk_feature(case["features"][0]))
+    elif op == 2:
+        o.label("original_edited_by_iadd")
+        orig += Annotation([probe])
+    else:
+        o.label("original_edited_by_add_feature")
+        orig.add_feature(probe)
+    aseq.sequence[case["mut_pos"]] = other
+    o.check(_annotation_set(acopy2) == model_set, "copy_independent", "Annotation.copy() after editing the original")
+    o.check(
+        _annotation_set(cp3.annotation) == model_set,
+        "copy_independent",
+        "annotation of AnnotatedSequence.copy() after editing the original",
+    )
+    o.check_eq(str(cp3.sequence), seq, "copy_independent", "sequence of the copy after mutating the original")
+
+    # "Objects of this class are immutable" (Feature): neither the dict given to the constructor
+    # nor the dict handed out by .qual is the feature's own
+    if case["features"]:
+        f = case["features"][0]
+        qual_in = dict(f["qual"])
+        feat = Feature(f["key"], [_mk_loc(l) for l in f["locs"]], qual_in)
+        holder = Annotation([feat])
+        h = hash(feat)
+        qual_in["verif_key"] = "x"
+        handed_out = feat.qual
+        try:
+            handed_out["verif_key2"] = "y"
+        except TypeError:
+            o.label("feature_qual_is_read_only")
+        o.check_eq(feat.qual, dict(f["qual"]), "feature_immutable", "qual after editing the dicts outside")
+        o.check(hash(feat) == h and feat in holder and feat == _mk_feature(f), "feature_immutable", "hash / membership / equality after editing the dicts outside")
+
     interesting = any(len(f["locs"]) >= 2 or any(l["defect"] for l in f["locs"]) for f in case["features"])
     o.mark_nontrivial(interesting)
     o.label("has_features" if case["features"] else "no_features")
@@ -530,7 +776,7 @@ SUBS = [
         quick=2500,
         thorough=80000,
         rule=">= 1 feature with a defect flag or >= 2 locations",
-        clauses="reverse complement twice, location mirroring, copy equality and independence",
+        clauses="reverse complement twice, location mirroring, copy equality and independence, feature immutability",
     ),
 ]
 
